@@ -118,6 +118,13 @@ func genC03(t *rapid.T) c03Case {
 			e.SubjectUID = genRaw(t, "suid", 1200)
 		}
 		e.PlainScalars = rapid.Bool().Draw(t, "plain")
+		if i > 0 && rapid.IntRange(0, 2).Draw(t, "request-based") == 0 {
+			// the second entity is only known through a certificate request: its artifact holds the
+			// request and no key, and the first entity issues its certificate
+			_, csr := goCertAndCSR(t)
+			e.Issuer = c.W.Ents[0].EffAlias()
+			c.W.Files = map[string][]byte{core.PemPath(e.File): core.PemBlock("CERTIFICATE REQUEST", csr)}
+		}
 		c.W.Ents = append(c.W.Ents, e)
 	}
 	c.Profile = genAcceptingProfile(t, c.W.Ents[0].Subject, "p")
@@ -142,7 +149,7 @@ func checkUID(name string, has bool, got []byte, unused int, want *core.Raw) *co
 
 func checkC03(c c03Case) *core.Failure {
 	// variant A: without profile; variant B: first entity references the accepting profile
-	wb := World{Ents: append([]core.Entity(nil), c.W.Ents...), Profs: []core.Profile{c.Profile}}
+	wb := World{Ents: append([]core.Entity(nil), c.W.Ents...), Profs: []core.Profile{c.Profile}, Files: c.W.Files}
 	wb.Ents[0].Profile = c.Profile.Name
 	type variant struct {
 		name string
@@ -237,7 +244,7 @@ func checkC03(c c03Case) *core.Failure {
 func TestC03(t *testing.T) {
 	r := core.Start(t, "C03")
 	defer r.Finish()
-	r.Rule = "1-2 self-signed entities; subject of 1-8 KEY=value pairs over the nine documented short names and custom dotted OIDs, values from four alphabets (alnum, PrintableString incl. inner spaces, ASCII outside PrintableString incl. tab, non-ASCII), occasionally 120-300 characters, rendered as YAML (quoted or plain scalars) or JSON; optional int64 serial (edge-weighted), optional unique ids (!binary up to 1200 bytes, !null, !empty). Each case runs twice: without profile and with a generated profile whose subjectAttributes accept the subject. Non-trivial = first subject has >= 2 attributes (order observable); distinct by subject string + serial + profile shape."
+	r.Rule = "1-2 self-signed entities; subject of 1-8 KEY=value pairs over the nine documented short names and custom dotted OIDs, values from four alphabets (alnum, PrintableString incl. inner spaces, ASCII outside PrintableString incl. tab, non-ASCII), occasionally 120-300 characters, rendered as YAML (quoted or plain scalars) or JSON; optional int64 serial (edge-weighted), optional unique ids (!binary up to 1200 bytes, !null, !empty); one second entity in three is request-based (artifact holds a CERTIFICATE REQUEST and no key, issued by the first). Each case runs twice: without profile and with a generated profile whose subjectAttributes accept the subject. Non-trivial = first subject has >= 2 attributes (order observable); distinct by subject string + serial + profile shape."
 	r.Assumptions = []string{"values containing ',', '=', '\\', a leading '#' or leading/trailing white space are outside the documented grammar and not generated", "a unique id configured as !empty must be present with zero bytes (C06: raw values hold for unique ids too)"}
 	wrap := func(c c03Case) *core.Failure {
 		e := &c.W.Ents[0]
@@ -262,6 +269,12 @@ func TestC03(t *testing.T) {
 			cls = append(cls, "profile-allowOther")
 		} else {
 			cls = append(cls, "profile-strict")
+		}
+		if len(c.W.Files) > 0 {
+			cls = append(cls, "request-based-second-entity")
+			if l := c.W.Ents[len(c.W.Ents)-1]; l.Serial != nil || l.IssuerUID != nil || l.SubjectUID != nil {
+				cls = append(cls, "request-based-with-serial-or-uid")
+			}
 		}
 		r.Case(key, cls...)
 		r.Sample(cls[0], map[string]any{"subject": e.SubjectString(), "serial": e.Serial, "profile": string(c.Profile.Render())})
